@@ -55,11 +55,16 @@ MANIFEST = dict(
          "ending in 'or an explicit hash coincidence among the finitely many hash inputs of that state' (two different inputs with equal 27-byte "
          "truncated hash, or a service entry whose key has component / service-information shape), computed by a decision procedure. "
          "Independently of any hash property, for ANY key-values with pairwise different keys a successful import loses and invents nothing "
-         "(C17_import_export_any). Tie to the code: real StateEncoder / StateKeyValsToState / fuzz SetState / RestoreBlockAndState run on generated "
+         "(C17_import_export_any). Closed corollaries (Proofs/StateKVInstP.v): the abstract codecs and root are instantiated with the development's generic "
+         "strict codec (Model/Codec.v) on the node's descriptors of the 16 components, ServiceInfo and the time-slot list (Model/JamTypes.v, any "
+         "parameter set) and with the Appendix D root (Model/Trie.v); the codec hypotheses are discharged by the C11/C13 theorems (roundtrip, canonical, "
+         "val_ok_enc) through a small adapter, the root hypothesis by C15's root_perm: C17_desc_roundtrip_root (any well-formed descriptors), "
+         "C17_jam_roundtrip_root, C17_jam_recovers, C17_jam_import_export_any — round trip and equal Trie.root, hash still arbitrary, collisions explicit. Tie to the code: real StateEncoder / StateKeyValsToState / fuzz SetState / RestoreBlockAndState run on generated "
          "full states against the extracted model on every run (keys, attribution, round trip, roots).",
-    note="Theorems are about Model/StateKV.v (Gallina); the Go code is tied by differential execution only. The 16 component encodings, the "
-         "service-information encoding and the time-slot-list encoding are abstract (Section variables with the C11/C13 laws as hypotheses), the hash "
-         "is abstract (only its output length is assumed; no injectivity). Not modelled: Go's final sort of the exported list (statements are up to "
+    note="Theorems are about Model/StateKV.v (Gallina); the Go code is tied by differential execution only. In the generic theorems the component, service-information "
+         "and time-slot-list encodings are Section variables with the C11/C13 laws as hypotheses; in the C17_desc_* / C17_jam_* corollaries they are the "
+         "concrete codec and descriptors (adapter: a component is a Codec.val, decoding demands full consumption and byte-valued input); the hash "
+         "is abstract throughout (only its output length is assumed; no injectivity). Not modelled: Go's final sort of the exported list (statements are up to "
          "permutation), Go map semantics on repeated input keys (outside the property: exports never repeat a key), the ChainState/fuzz plumbing "
          "(exercised by the harness, not modelled). Lookup lengths >= 2^32-2 and values of 4 GiB are outside well-formedness (their key preimages "
          "coincide literally with storage/preimage key preimages, in the Gray Paper as well).",
